@@ -216,6 +216,9 @@ theorem c20_raising_callback_changes_nothing (env : Env ν) (st : Store ν) (op 
     cases hi : st.genomes[i]? with
     | none => rw [step_noid rfl hi] at hr; cases hr
     | some g => rw [step_getValue hi] at hr; cases hr
+  | validate i => rw [step_query (Or.inl ⟨i, rfl⟩)]
+  | listGenes i => rw [step_query (Or.inr (Or.inl ⟨i, rfl⟩))]
+  | diff i j => rw [step_query (Or.inr (Or.inr ⟨i, j, rfl⟩))]
 
 /-- **A refused rollback is logged as unapproved**: if the gene has an approved mutation to roll back and
     `rollback_mutation` returns `False`, exactly one unapproved entry (this gene, current value → the value
@@ -463,6 +466,48 @@ theorem c20_express_step (env : Env ν) (st : Store ν) (i : Nat) (ctx : List Na
     (hi : st.genomes[i]? = some g) : step env st (.express i ctx) = (st, .config (express g ctx)) :=
   step_express hi
 
+/-! ## Read-only queries (validate, list_genes, diff): outside the property, modelled for the correspondence -/
+
+/-- `validate`, `list_genes` and `diff` change nothing in the store. -/
+theorem c20_queries_change_nothing (env : Env ν) (st : Store ν) (i j : Nat) :
+    (step env st (.validate i)).1 = st ∧ (step env st (.listGenes i)).1 = st ∧ (step env st (.diff i j)).1 = st :=
+  ⟨step_query (Or.inl ⟨i, rfl⟩), step_query (Or.inr (Or.inl ⟨i, rfl⟩)), step_query (Or.inr (Or.inr ⟨i, j, rfl⟩))⟩
+
+/-- `validate` reports exactly the required genes that are silenced. -/
+theorem c20_validate_exact (g : Genome ν) (hw : WFG g) (n : Nat) :
+    n ∈ validate g ↔ ∃ x, findGene g.genes n = some x ∧ x.required = true ∧ findLevel g.expr n = some .silenced := by
+  unfold validate
+  simp only [List.mem_map, List.mem_filter, Bool.and_eq_true, beq_iff_eq]
+  constructor
+  · rintro ⟨x, ⟨hx, hr, hs⟩, rfl⟩
+    exact ⟨x, findGene_of_mem_nodup hw hx, hr, hs⟩
+  · rintro ⟨x, hf, hr, hs⟩
+    have hn := findGene_some_name hf
+    exact ⟨x, ⟨findGene_some_mem hf, hr, by rw [hn]; exact hs⟩, hn⟩
+
+/-- `diff` reports exactly the names, of either genome, under which the two show different values (`None`
+    standing for "no such gene"), each with the two values shown. -/
+theorem c20_diff_exact (env : Env ν) (g h : Genome ν) (n : Nat) (a b : Option ν) :
+    (n, a, b) ∈ diff env g h ↔
+      (n ∈ g.genes.map (·.name) ∨ n ∈ h.genes.map (·.name)) ∧ a = valueOf g n ∧ b = valueOf h n ∧
+        differs env (valueOf g n) (valueOf h n) = true := by
+  unfold diff
+  simp only [List.mem_map, List.mem_filter, List.mem_append, Prod.mk.injEq, List.contains_eq_mem,
+    Bool.not_eq_true', decide_eq_false_iff_not]
+  constructor
+  · rintro ⟨m, ⟨hm, hd⟩, rfl, rfl, rfl⟩
+    refine ⟨?_, rfl, rfl, hd⟩
+    rcases hm with hm | ⟨hm, -⟩
+    · exact Or.inl hm
+    · exact Or.inr hm
+  · rintro ⟨hm, rfl, rfl, hd⟩
+    refine ⟨n, ⟨?_, hd⟩, rfl, rfl, rfl⟩
+    by_cases hg : ∃ a, a ∈ g.genes ∧ a.name = n
+    · exact Or.inl hg
+    · rcases hm with hm | hm
+      · exact absurd hm hg
+      · exact Or.inr ⟨hm, hg⟩
+
 /-! ## Clause 6 — rollback -/
 
 /-- **Rollback restores the value that preceded the last approved mutation.**  If `rollback_mutation`
@@ -606,12 +651,12 @@ section Examples
 
 /-- callback approves exactly "set gene 0 to 7" -/
 private def envA : Env Nat :=
-  { adv := fun _ _ n _ v _ => if n = 0 ∧ v = 7 then .approve else .refuse, rnd := fun _ _ _ => none }
+  { adv := fun _ _ n _ v _ => if n = 0 ∧ v = 7 then .approve else .refuse, rnd := fun _ _ _ => none, veq := fun a b => a == b, isNone := fun _ => false }
 /-- callback approves every change of gene 0 -/
 private def envB : Env Nat :=
-  { adv := fun _ _ n _ _ _ => if n = 0 then .approve else .refuse, rnd := fun _ _ _ => none }
+  { adv := fun _ _ n _ _ _ => if n = 0 then .approve else .refuse, rnd := fun _ _ _ => none, veq := fun a b => a == b, isNone := fun _ => false }
 /-- callback approves nothing -/
-private def envNo : Env Nat := { adv := fun _ _ _ _ _ _ => .refuse, rnd := fun _ _ _ => none }
+private def envNo : Env Nat := { adv := fun _ _ _ _ _ _ => .refuse, rnd := fun _ _ _ => none, veq := fun a b => a == b, isNone := fun _ => false }
 
 private def gene0 : Gene Nat := ⟨0, 1, .structural, true, .normal⟩
 private def gene1 : Gene Nat := ⟨1, 2, .conditional, false, .high⟩
